@@ -187,19 +187,22 @@ unsigned int GlobalGraph::unlinkInNodeStructure_(const GlobalGraph::Node& nodeA,
 {
   // Forward
   nodeStructureType::iterator nodeARow = nodeStructure_.find(nodeA);
+  if (nodeARow == nodeStructure_.end())
+    throw Exception("GlobalGraph::unlinkInNodeStructure_ : no node " + TextTools::toString(nodeA));
   map<GlobalGraph::Node, GlobalGraph::Edge>::iterator foundForwardRelation = nodeARow->second.first.find(nodeB);
   if (foundForwardRelation == nodeARow->second.first.end())
     throw Exception("GlobalGraph::unlinkInNodeStructure_ : no edge to erase " + TextTools::toString(nodeA) + "->" + TextTools::toString(nodeB));
 
-  GlobalGraph::Edge foundEdge = foundForwardRelation->second;
-  nodeARow->second.first.erase(foundForwardRelation);
-
   // Backwards
   nodeStructureType::iterator nodeBRow = nodeStructure_.find(nodeB);
+  if (nodeBRow == nodeStructure_.end())
+    throw Exception("GlobalGraph::unlinkInNodeStructure_ : no node " + TextTools::toString(nodeB));
   map<GlobalGraph::Node, GlobalGraph::Edge>::iterator foundBackwardsRelation = nodeBRow->second.second.find(nodeA);
-  if (foundBackwardsRelation == nodeBRow->second.first.end())
+  if (foundBackwardsRelation == nodeBRow->second.second.end())
     throw Exception("GlobalGraph::unlinkInNodeStructure_ : no edge to erase " + TextTools::toString(nodeB) + "<-" + TextTools::toString(nodeA));
 
+  GlobalGraph::Edge foundEdge = foundForwardRelation->second;
+  nodeARow->second.first.erase(foundForwardRelation);
   nodeBRow->second.second.erase(foundBackwardsRelation);
 
   this->topologyHasChanged_();
